@@ -353,6 +353,8 @@ def register(reg):
     register_planar_ops(reg)
     register_containment(reg)
     register_aabb(reg)
+    register_view_angle(reg)
+    register_bounded_footprint(reg)
 
 
 def _patch_make_geom():
@@ -1867,3 +1869,192 @@ def mk_rectangular(I, tag="self"):
     eng.input_syms.append(("local", C.TupleOf(C.Real(), C.Real()), (rx, ry)))
     member = sv_and(compare("<=", arith("-", 0, hw), rx), compare("<=", rx, hw), compare("<=", arith("-", 0, hl), ry), compare("<=", ry, hl))
     return r, (rot(rx, ry), member)
+
+
+# ===================================================================================================
+# geometry.viewAngleToPoint (the cone test behind SectorRegion.containsPoint)
+
+ATAN2 = z3.Function("atan2", _R, _R, _R)
+
+
+def ensure_atan2(I):
+    """math.atan2(y, x): abstract, value in (-pi, pi] (A2-atan2-range)."""
+    import math
+
+    mm = I.modules["math"]
+    if "atan2" in mm.attrs:
+        return
+    eng = I.eng
+
+    def atan2(y, x):
+        v = SV(ATAN2(toz3(y, want_real=True), toz3(x, want_real=True)), True)
+        eng.assume(sv_and(compare(">", v, -math.pi), compare("<=", v, math.pi)))
+        return v
+
+    mm.attrs["atan2"] = BuiltinFn("math.atan2", atan2)
+
+
+def register_view_angle(reg):
+    import fractions
+    import math
+
+    TAU = z3.RealVal(str(fractions.Fraction(repr(math.tau))))
+    reg.trust("A2-atan2-range", "math.atan2(y, x) is an angle in (-pi, pi] (the direction of (x, y); abstract otherwise)")
+
+    def is_turns(x):
+        t = toz3(x, want_real=True) / TAU
+        return SV(t == z3.ToReal(z3.ToInt(t)))
+
+    # normalizeAngle: assumed at the call site with the contract that is PROVED under C08 (contracts/relations.py)
+    def norm_result(I, env):
+        eng = I.eng
+        a = env.lookup("angle")
+        r = eng.fresh_real("normalized")
+        w = eng.fresh_int("winding")
+        eng.assume(compare("==", r, arith("-", a, arith("*", math.tau, w))))
+        return r
+
+    reg.add(
+        C.Contract(
+            f"{GEO}:normalizeAngle",
+            params=dict(angle=C.Real()),
+            ensures={"in_range": "-math.pi <= result and result <= math.pi", "identity_in_range": "implies(-math.pi <= angle and angle <= math.pi, result == angle)"},
+            result=norm_result,
+            call_only=True,
+            note="result = angle - tau * k for an integer k, in [-pi, pi]; verified with loop invariants under C08 (relations.py)",
+            properties=("C16",),
+        )
+    )
+
+    def setup(I, env):
+        eng = I.eng
+        ensure_atan2(I)
+        p = tuple(eng.fresh_real(f"point.{c}") for c in "xyz")
+        b = tuple(eng.fresh_real(f"base.{c}") for c in "xyz")
+        h = eng.fresh_real("heading")  # EVERY heading, not only normalised ones (450 deg, accumulated headings, ...)
+        eng.input_syms.append(("point", C.TupleOf(C.Real(), C.Real(), C.Real()), p))
+        eng.input_syms.append(("base", C.TupleOf(C.Real(), C.Real(), C.Real()), b))
+        eng.input_syms.append(("heading", C.Real(), h))
+        env.vars.update(point=p, base=b, heading=h)
+
+    def post(I, env, outcome):
+        eng = I.eng
+        oname = "geometry.viewAngleToPoint"
+        if outcome[0] != "return":
+            return
+        r, p, b, h = outcome[1], env.vars["point"], env.vars["base"], env.vars["heading"]
+        ok = isinstance(r, (int, float, SV))
+        eng.check(f"{oname}#ensures.returns_a_number", ok)
+        if not ok:
+            return
+        eng.check(f"{oname}#ensures.in_range_minus_pi_to_pi_for_every_heading", sv_and(compare("<=", -math.pi, r), compare("<=", r, math.pi)))
+        az = SV(ATAN2(toz3(arith("-", p[1], b[1]), want_real=True), toz3(arith("-", p[0], b[0]), want_real=True)), True)
+        rel = arith("-", arith("-", az, math.pi / 2.0), h)  # azimuth of (point - base) in Scenic's convention, relative to the heading
+        eng.check(f"{oname}#ensures.is_the_azimuth_of_the_point_minus_the_heading_modulo_a_full_turn", is_turns(arith("-", r, rel)))
+
+    def replay(inputs, clause):
+        from scenic.core.geometry import viewAngleToPoint
+
+        h0 = float(inputs.get("heading", 0.0))
+        for h in (h0, 2.5 * math.pi, -3 * math.pi, 12.0, 0.3):
+            for p in ((0.0, 1.0, 0.0), (1.0, 0.2, 0.0), (-1.0, -0.5, 0.0), (0.3, -2.0, 0.0)):
+                r = viewAngleToPoint(p, (0.0, 0.0, 0.0), h)
+                want = math.atan2(p[1], p[0]) - math.pi / 2 - h
+                k = (r - want) / math.tau
+                if not (-math.pi - 1e-9 <= r <= math.pi + 1e-9) or abs(k - round(k)) > 1e-6:
+                    return f"viewAngleToPoint({p}, (0, 0, 0), heading={h}) = {r}: not the relative azimuth {want} brought into [-pi, pi]"
+        return None
+
+    reg.add(C.Contract(f"{GEO}:viewAngleToPoint", params=dict(point=C.Const(None), base=C.Const(None), heading=C.Const(None)), setup=setup, post=post, replay=replay, properties=("C16",)))
+
+
+# ===================================================================================================
+# PolygonalFootprintRegion.approxBoundFootprint: soundness of the cached bounded footprint for every history
+
+
+def register_bounded_footprint(reg):
+    def bound_footprint(I, self, centerZ, height):
+        """boundFootprint(c, h): the prism over the polygon between c - h/2 and c + h/2 (trimesh extrusion, trusted)."""
+        r = PObj(RC("MeshVolumeRegion"), tag="bounded-footprint")
+        init_samplable(r)
+        half = arith("/", height, 2)
+        r.fields.update(_slab=(arith("-", centerZ, half), arith("+", centerZ, half)), _of=self, orientation=None, name=None)
+        log = self.fields.setdefault("_bound_calls", [])
+        log.append((centerZ, height, r))
+        return r
+
+    reg.models[f"{RG}:PolygonalFootprintRegion.boundFootprint"] = bound_footprint
+    reg.trust("PolygonalFootprintRegion.boundFootprint", "stub: boundFootprint(c, h) is the prism over the footprint's polygon between z = c - h/2 and z = c + h/2 (trimesh triangulation / extrusion not modelled; the replay checks the real mesh bounds)")
+
+    def setup(I, env):
+        eng = I.eng
+        A = mk_footprint(I, "self")
+        cz, h = eng.fresh_real("centerZ"), eng.fresh_real("height")
+        eng.assume(compare(">", h, 0))
+        eng.input_syms.append(("centerZ", C.Real(), cz))
+        eng.input_syms.append(("height", C.Real(), h))
+        hist = eng.choose(2, "history: first use / an earlier request is cached")
+        if hist == 1:
+            # ANY earlier history leaves the cache in a state satisfying the cache invariant (re-established below):
+            # the cached region is the prism between prev_centerZ -+ prev_height/2
+            pc, ph = eng.fresh_real("cached.centerZ"), eng.fresh_real("cached.height")
+            eng.assume(compare(">", ph, 0))
+            eng.input_syms.append(("cached.centerZ", C.Real(), pc))
+            eng.input_syms.append(("cached.height", C.Real(), ph))
+            prev = PObj(RC("MeshVolumeRegion"), tag="cached-bounded-footprint")
+            init_samplable(prev)
+            prev.fields.update(_slab=(arith("-", pc, arith("/", ph, 2)), arith("+", pc, arith("/", ph, 2))), _of=A, orientation=None, name=None)
+            A.fields["_bounded_cache"] = (pc, ph, prev)
+        else:
+            A.fields["_bounded_cache"] = None
+        env.vars.update(self=A, centerZ=cz, height=h)
+
+    def post(I, env, outcome):
+        eng = I.eng
+        oname = "regions.PolygonalFootprintRegion.approxBoundFootprint"
+        if outcome[0] != "return":
+            return
+        A, cz, h, res = env.vars["self"], env.vars["centerZ"], env.vars["height"], outcome[1]
+        ok = isinstance(res, PObj) and "_slab" in res.fields and res.fields.get("_of") is A
+        eng.check(f"{oname}#ensures.returns_a_bounded_footprint_of_this_region", ok)
+        if ok:
+            lo, hi = res.fields["_slab"]
+            half = arith("/", h, 2)
+            eng.check(f"{oname}#ensures.result_covers_the_requested_slab_whatever_was_cached_before", sv_and(compare("<=", lo, arith("-", cz, half)), compare("<=", arith("+", cz, half), hi)))
+        # cache invariant re-established (so the obligation above holds after every history of requests)
+        cache = A.fields.get("_bounded_cache")
+        okc = isinstance(cache, tuple) and len(cache) == 3 and isinstance(cache[2], PObj) and "_slab" in cache[2].fields
+        eng.check(f"{oname}#cache.holds_a_centre_a_height_and_a_region", okc)
+        if okc:
+            c0, h0, r0 = cache
+            lo0, hi0 = r0.fields["_slab"]
+            eng.check(f"{oname}#cache.cached_region_is_the_prism_of_the_cached_centre_and_height", sv_and(compare(">", h0, 0), compare("==", lo0, arith("-", c0, arith("/", h0, 2))), compare("==", hi0, arith("+", c0, arith("/", h0, 2))), r0.fields.get("_of") is A))
+
+    def replay(inputs, clause):
+        R, Vector = _real_regions()
+        F = R.PolygonalRegion([(0, 0), (4, 0), (4, 4), (0, 4)]).footprint
+        cz, h = float(inputs["centerZ"]), float(inputs["height"])
+        hist = []
+        if "cached.centerZ" in inputs:
+            pc, ph = float(inputs["cached.centerZ"]), float(inputs["cached.height"])
+            h0 = ph / (100 * max(1, pc))  # the earlier request that leaves (pc, ph) in the cache
+            F.approxBoundFootprint(pc, h0)
+            hist.append((pc, h0))
+        res = F.approxBoundFootprint(cz, h)
+        zlo, zhi = float(res.mesh.bounds[0][2]), float(res.mesh.bounds[1][2])
+        if zlo > cz - h / 2 + 1e-9 or zhi < cz + h / 2 - 1e-9:
+            return f"footprint.approxBoundFootprint({cz}, {h}) after earlier requests {hist} returned a prism spanning z in [{zlo}, {zhi}], which does not cover the requested slab [{cz - h / 2}, {cz + h / 2}]"
+        return None
+
+    reg.add(
+        C.Contract(
+            f"{RG}:PolygonalFootprintRegion.approxBoundFootprint",
+            params=dict(self=C.Const(None), centerZ=C.Const(None), height=C.Const(None)),
+            setup=setup,
+            post=post,
+            inline_all=True,
+            replay=replay,
+            note="history = arbitrary cache state satisfying the cache invariant, which every call re-establishes (induction over the sequence of requests)",
+            properties=("C16",),
+        )
+    )
